@@ -3,7 +3,7 @@ C19 -- an interrupted count can always be reported, as a prefix of the full coun
 Fault injection at every execution point: a sys.monitoring LINE callback raises KeyboardInterrupt at the k-th executed
 line of package code while Election.count() is on the stack, for every k of each swept count.
 """
-import os, sys, io, json, contextlib, importlib.util, tempfile
+import os, sys, io, json, time, contextlib, importlib.util, tempfile
 from .. import gen, configs
 from ..harness import Election, ElectionProfile, REPO, raw
 
@@ -15,7 +15,7 @@ SHARDS = 16
 QUICK_S = 25
 RULE_TEXT = ('for each swept (profile, rule, options) the uninterrupted count is traced once (N line events in files of the droop package while '
              'Election.count() is on the stack); then for EVERY k in 1..N a fresh Election is counted and KeyboardInterrupt is raised from the LINE '
-             'callback at the k-th event (complete enumeration of the interruption points of that count; the k are partitioned over the shards). After '
+             'callback at the k-th event (complete enumeration of the interruption points of that count, the k partitioned over the shards; a count too long for the tier - the cost of the enumeration is quadratic in its length - is swept at evenly spaced points instead, and both kinds are counted). After '
              'each interruption report(True), dump(True) and json(True) are called as Droop.main does: none may raise, the interruption marker must '
              'appear exactly once, and the recorded actions minus the marker must be value-equal (tag, message, round, every raw tally / quota / total) '
              'to a prefix of the uninterrupted record. A sample of points is driven through Droop.main itself with a temporary ballot file and every '
@@ -194,7 +194,9 @@ def shard(ctx):
             blt = gen.render(s)
             profile = ElectionProfile(data=blt)
             State.lines = set()
+            t_full = time.process_time()
             E0, intr, N = run_once(profile, opts, None)
+            t_full = time.process_time() - t_full
             lines_seen = State.lines
             State.lines = None
             if intr:
@@ -207,7 +209,22 @@ def shard(ctx):
             if not ctx.time_left() and si >= (11 if ctx.quick else 33):
                 ctx.count('sweeps_skipped_for_time')
                 continue
+            # the enumeration re-runs the count up to each point: its cost grows with the square of the count's length. A count too
+            # long for the tier is swept at evenly spaced points instead of all of them (counted; the short counts stay complete)
+            est = len(mine) * t_full * 0.5
+            allowance = 15.0 if ctx.quick else 150.0
+            if est > allowance:
+                stride = int(est / allowance) + 1
+                ctx.count('sweeps_sampled_at_evenly_spaced_points')
+                ctx.count('interruption_points_left_out_of_long_counts', len(mine) - len(mine[::stride]))
+                mine = mine[::stride]
+            else:
+                ctx.count('sweeps_enumerated_completely')
+            hard_stop = ctx.deadline + (90.0 if ctx.quick else 300.0)
             for k in mine:
+                if time.monotonic() > hard_stop:
+                    ctx.count('sweeps_cut_short_for_time')
+                    break
                 E, interrupted, n = run_once(profile, opts, k)
                 ctx.evaluated()
                 if not interrupted:
